@@ -15,6 +15,7 @@
   NOT proved: invariance of the full NUTS transition (tested by long chains in the harness, labelled a test).
 -/
 import NiftyVerif.Lemmas.Hmc
+import NiftyVerif.Lemmas.HmcSlots
 
 namespace NiftyVerif.C32
 open NiftyVerif.Hmc
@@ -164,6 +165,20 @@ theorem progressive_sampling_step (W w wi : ℝ) :
   ring
 
 end weights
+
+/-! ## NUTS slot bookkeeping -/
+
+/-- **nuts_slot_invariant**: in `iterative_build_tree` every even leaf `m` is stored in slot `population_count(m)`; for an
+    odd leaf `n` with `l = count_trailing_ones(n)` the slots `i_max_incl - j` (`i_max_incl = population_count(n-1)`, `j < l`)
+    that the u-turn loop reads hold — for EVERY `n`, i.e. every tree depth — exactly the left-most leaves
+    `n + 1 - 2^(j+1)` of the complete sub-trees of sizes `2, 4, …, 2^l` whose right-most leaf is `n` -/
+theorem nuts_slot_invariant (n : Nat) (hn : n % 2 = 1) :
+    checkedLeaves n = subtreeLeftLeaves n
+    ∧ ∀ j, j < countTrailingOnes n → storeAt (n - 1) (popCount (n - 1) - j) = some (n + 1 - 2 ^ (j + 1)) :=
+  ⟨checkedLeaves_eq n hn, slot_invariant n hn⟩
+
+/-- the number of sub-trees checked at leaf `n` is the exponent of the largest power of two dividing `n + 1` -/
+theorem nuts_subtree_count (n : Nat) : 2 ^ countTrailingOnes n ∣ n + 1 := pow_cto_dvd n
 
 /-! ## non-vacuity -/
 
